@@ -203,6 +203,10 @@ func TestWorker(t *testing.T) {
 		}
 		seed := job.SeedStart + uint64(i)
 		sc := eng.gen(job.Prop, seed, job.Tier)
+		if traceEvery > 0 {
+			b, _ := json.Marshal(sc)
+			fmt.Fprintf(os.Stderr, "trace: scenario %s\n", b)
+		}
 		res := eng.run(t, sc, dump)
 		if i == 0 {
 			b, _ := json.Marshal(sc)
